@@ -473,9 +473,9 @@ func repoGarbageCollect(repo Repo, conf config.Config, index types.Index, locked
 			continue
 		}
 		seen[d.Digest] = true
-		walked[d.Digest] = true
 		// parse manifests for descriptors (manifests, config, layers)
 		if types.MediaTypeIndex(d.MediaType) {
+			walked[d.Digest] = true
 			man := types.Index{}
 			err = json.NewDecoder(br).Decode(&man)
 			errClose := br.Close()
@@ -486,6 +486,7 @@ func repoGarbageCollect(repo Repo, conf config.Config, index types.Index, locked
 				manifests = append(manifests, child.Copy())
 			}
 		} else if types.MediaTypeImage(d.MediaType) {
+			walked[d.Digest] = true
 			man := types.Manifest{}
 			err = json.NewDecoder(br).Decode(&man)
 			errClose := br.Close()
@@ -498,6 +499,7 @@ func repoGarbageCollect(repo Repo, conf config.Config, index types.Index, locked
 			}
 		} else {
 			// unknown media type listed in an index, treat it as a blob
+			// it is not marked as walked, the same digest may be listed as a manifest elsewhere
 			errClose := br.Close()
 			if errClose != nil {
 				continue
